@@ -2245,7 +2245,7 @@ class PdiffIndex(_multivalued):
     def _get_size_field_length(self, key):
         # type: (str) -> int
         lengths = [len(str(item['size'])) for item in self[key]]
-        return max(lengths)
+        return max(lengths, default=0)
 
 
 class Release(_multivalued):
@@ -2297,7 +2297,7 @@ class Release(_multivalued):
             return 16
         if self.size_field_behavior == "dak":
             lengths = [len(str(item['size'])) for item in self[key]]
-            return max(lengths)
+            return max(lengths, default=0)
         raise ValueError("Illegal value for size_field_behavior")
 
 
